@@ -20,7 +20,8 @@ TECHNIQUE = ("syntax-directed extraction of the precedence chain; CFG must-follo
              "queries on the encoding-change and sniffing functions")
 CLAIM = ("The order, confidence and guards of the encoding sources in determineEncoding equal the documented precedence; a "
          "declared UTF-16 is mapped to UTF-8 and the mapped value is the one that takes effect on both declaration paths; a "
-         "late declaration restarts the parse in the right order and only while the encoding is tentative; sniffing always "
+         "late declaration restarts the parse in the right order and only while the encoding is tentative, and every accepted "
+         "declaration makes the encoding certain; sniffing always "
          "restores the stream position; the reported encoding is the one the decoder uses.")
 NOT_DECIDED = "the byte-level prescan parser and content= extraction; equality of the tree with the tree of the decoded bytes."
 MODULES = ["_inputstream.py", "html5parser.py"]
